@@ -38,11 +38,19 @@ pub struct ExWaitTimeoutResult(std::sync::WaitTimeoutResult);
 pub struct ExInstant(std::time::Instant);
 pub assume_specification<'a, T>[ Condvar::wait_timeout::<T> ](c: &Condvar, g: MutexGuard<'a, T>, d: Duration) -> (r: std::sync::LockResult<(std::sync::MutexGuard<'a, T>, std::sync::WaitTimeoutResult)>)
     requires may_block(),
-    ensures r is Ok, guard_of(&(r->Ok_0).0) == guard_of(&g);
-pub assume_specification[ std::sync::WaitTimeoutResult::timed_out ](w: &std::sync::WaitTimeoutResult) -> (r: bool);
-pub assume_specification[ Duration::from_millis ](ms: u64) -> (r: Duration);
-pub assume_specification[ Duration::as_secs ](d: &Duration) -> (r: u64);
-pub assume_specification[ Duration::subsec_nanos ](d: &Duration) -> (r: u32);
+    ensures r is Ok, guard_of(&(r->Ok_0).0) == guard_of(&g), wait_budget(&(r->Ok_0).1) == nanos(d);
+// ---- time (C17, ASSUMED from the std documentation): nanos(d) = length of a Duration in nanoseconds;
+// waited(w) = how long the wait that produced this WaitTimeoutResult really lasted
+pub uninterp spec fn waited(w: &std::sync::WaitTimeoutResult) -> nat;
+pub uninterp spec fn wait_budget(w: &std::sync::WaitTimeoutResult) -> nat;
+pub assume_specification[ std::sync::WaitTimeoutResult::timed_out ](w: &std::sync::WaitTimeoutResult) -> (r: bool)
+    ensures r ==> waited(w) >= wait_budget(w);       // "true if the wait was known to have timed out": the full budget has elapsed
+pub assume_specification[ Duration::from_millis ](ms: u64) -> (r: Duration)
+    ensures nanos(r) == ms * 1_000_000;
+pub assume_specification[ Duration::as_secs ](d: &Duration) -> (r: u64)
+    ensures r == nanos(*d) / 1_000_000_000;
+pub assume_specification[ Duration::subsec_nanos ](d: &Duration) -> (r: u32)
+    ensures r == nanos(*d) % 1_000_000_000;
 pub assume_specification[ Instant::now ]() -> (r: Instant);
 pub assume_specification[ Instant::elapsed ](i: &Instant) -> (r: Duration);
 
@@ -157,8 +165,16 @@ proof fn axiom_receive_step<T: Send>(q: &MessagesQueue<T>, q0: Seq<Control<T>>, 
     ensures received(self, res),
 //@entry
         proof { assume(may_block()); }   // recv_timeout() may block (for a bounded time)
+        // ghost clock bookkeeping (C17 timing): `slept` = sum of the measured sleep times so far
+        let ghost mut slept: nat = 0;
 //@loop 1
             invariant may_block(),
+                // O-TIME-BOOK: `duration` is what is left of the timeout after the measured sleeps (saturating at 0) ...
+                nanos(duration) == (if nanos(timeout) >= slept { nanos(timeout) - slept } else { 0 }) as nat,
+                // ... so every wait begins while less than `timeout` has been slept (upper bound: the measured sleeps before
+                // the last wait add up to less than `timeout`, and the last wait is itself bounded by `timeout`:
+                // at most 2 x timeout plus scheduling latency)
+                slept == 0 || slept + 1_000_000 <= nanos(timeout),
 //@loopentry 1
             let ghost q0 = gval(&queue)@;
 //@atexit
@@ -167,6 +183,12 @@ proof fn axiom_receive_step<T: Send>(q: &MessagesQueue<T>, q0: Seq<Control<T>>, 
             proof { assert(gval(&queue)@ == q0 && q0.len() == 0); }
 //@after? 1 queue = _queue
             let ghost q0 = gval(&queue)@;   // after the wait the protected value is whatever the other threads left
+//@after? 1 let sleep_time = now.elapsed()
+            proof { slept = slept + nanos(sleep_time); }
+//@before? 3 return
+                // O-TIME-LOWER (C17): an empty-handed return that is not caused by an Unblock token happens only after a wait
+                // that ran its full budget (= timeout), or after the measured sleeps add up to more than timeout - 1 ms
+                proof { assert((waited(&result) >= nanos(timeout)) || (slept + 1_000_000 > nanos(timeout))); }   // [C17]
 //@endfn
 //@endimpl
 
